@@ -244,7 +244,8 @@ func checkC05(c *Ctx) error {
 		o.ScopeProb = 0.75
 		o.NonFinite = false
 		conf := gen.Behaviour(r, o)
-		units = append(units, &probe.Unit{ID: idOf(i), Cfg: conf, Files: []probe.File{{Name: "gontainer.yaml", Content: conf.YAML()}}, Ops: StdOps(conf, r, true)})
+		// every other configuration is spread over 2 or 4 files (scope, constructor and the rest of a service may sit in different files)
+		units = append(units, &probe.Unit{ID: idOf(i), Cfg: conf, Files: gen.Split(r, conf, i%3), Ops: StdOps(conf, r, true)})
 	}
 	// a sample of the small graphs is executed as well (accepted ones only)
 	k := 0
